@@ -150,19 +150,11 @@ Section BuilderP.
   Definition ent_ok (s0 s : state) (srcs : list tree) (e : ent) : Prop :=
     fresh_or_from s0 s srcs (snd e) /\
     (fst e = false -> (next s0 <= idof (snd e))%positive /\ (idof (snd e) < next s)%positive).
-  Definition stk_inv (s0 s : state) (srcs : list tree) (st : list ent) : Prop :=
-    (next s0 <= next s)%positive /\ Forall (ent_ok s0 s srcs) st.
 
   Lemma fof_mono s0 s s' srcs (t : tree) : fresh_or_from s0 s srcs t -> (next s <= next s')%positive -> fresh_or_from s0 s' srcs t.
   Proof. intros Hf Hn u Hu. destruct (Hf u Hu) as [Hs|[Ha Hb]]; [left; exact Hs|right; split; [exact Ha|lia]]. Qed.
   Lemma ent_mono s0 s s' srcs e : ent_ok s0 s srcs e -> (next s <= next s')%positive -> ent_ok s0 s' srcs e.
   Proof. intros [Hf Hi] Hn. split; [eapply fof_mono; eauto|]. intros Hfl. destruct (Hi Hfl). split; lia. Qed.
-  Lemma stk_mono s0 s s' srcs st : stk_inv s0 s srcs st -> (next s <= next s')%positive -> stk_inv s0 s' srcs st.
-  Proof.
-    intros [Hn Hall] Hle. split; [lia|]. eapply Forall_impl; [|exact Hall]. intros e He. eapply ent_mono; eauto.
-  Qed.
-  Lemma stk_bump s0 s srcs st : stk_inv s0 s srcs st -> stk_inv s0 (bump s) srcs st.
-  Proof. intros Hi. eapply stk_mono; eauto. cbn [bump next]. lia. Qed.
   Lemma ent_node s0 s srcs f1 l f2 r : ent_ok s0 s srcs (f1, l) -> ent_ok s0 s srcs (f2, r) ->
     (next s0 <= next s)%positive -> ent_ok s0 (bump s) srcs (false, Node (next s) l r).
   Proof.
@@ -189,6 +181,159 @@ Section BuilderP.
   Qed.
   Lemma ent_src s0 s srcs t : In t srcs -> ent_ok s0 s srcs (true, t).
   Proof. intros Hin. split; cbn [fst snd]; [|discriminate]. intros u Hu. left. exists t. auto. Qed.
+
+  (* ---------- identities name nodes ---------- *)
+  Lemma subt_refl (t : tree) : subt t t.
+  Proof. destruct t; left; reflexivity. Qed.
+  Lemma subt_In_id (u t : tree) : subt u t -> In_id (idof u) t.
+  Proof.
+    induction t as [i v|i vs|i l IHl r IHr|i d0]; cbn [subt In_id]; intros [->|Hs]; try (left; reflexivity); try tauto.
+  Qed.
+  Lemma In_id_subt i (t : tree) : In_id i t -> exists u, subt u t /\ idof u = i.
+  Proof.
+    induction t as [j v|j vs|j l IHl r IHr|j d0]; cbn [In_id]; intros [->|Hs]; try tauto;
+      try (eexists; split; [apply subt_refl|reflexivity]).
+    destruct Hs as [Hs|Hs]; [destruct (IHl Hs) as (u & Hu & E)|destruct (IHr Hs) as (u & Hu & E)];
+      exists u; (split; [cbn [subt]; tauto|exact E]).
+  Qed.
+  Lemma In_id_root (t : tree) : In_id (idof t) t.
+  Proof. apply subt_In_id, subt_refl. Qed.
+  Lemma fof_below s0 s srcs (t : tree) : fresh_or_from s0 s srcs t ->
+    (forall u, In u srcs -> below (next s0) u) -> (next s0 <= next s)%positive -> below (next s) t.
+  Proof.
+    intros Hf Hs Hn i Hi. destruct (In_id_subt i t Hi) as (u & Hu & <-).
+    destruct (Hf u Hu) as [(t0 & Hin & Hsub)|[_ Hb]]; [|exact Hb].
+    pose proof (Hs t0 Hin (idof u) (subt_In_id u t0 Hsub)). lia.
+  Qed.
+
+  Lemma idf_incl (ts ts' : list tree) : incl ts' ts -> idf ts -> idf ts'.
+  Proof. intros Hi Hf t1 t2 u v H1 H2. apply Hf; auto. Qed.
+  (* a new root whose identity is above everything else *)
+  Lemma idf_fresh_root (t : tree) (Y Y' : list tree) : idf Y -> (forall x, In x Y -> below (idof t) x) ->
+    (forall u, subt u t -> u = t \/ exists x, In x Y /\ subt u x) -> incl Y' Y -> idf (t :: Y').
+  Proof.
+    intros Hf Hb Hsub Hinc.
+    assert (Hcl: forall t1 u, In t1 (t :: Y') -> subt u t1 -> u = t \/ exists x, In x Y /\ subt u x).
+    { intros t1 u [<-|Hin] Hu; [apply Hsub; exact Hu|right; exists t1; split; [apply Hinc; exact Hin|exact Hu]]. }
+    intros t1 t2 u v H1 H2 Hu Hv E.
+    destruct (Hcl t1 u H1 Hu) as [->|(x & Hx & Hux)]; destruct (Hcl t2 v H2 Hv) as [->|(y & Hy & Hvy)]; auto.
+    - pose proof (Hb y Hy _ (subt_In_id v y Hvy)). lia.
+    - pose proof (Hb x Hx _ (subt_In_id u x Hux)). lia.
+    - apply (Hf x y); auto.
+  Qed.
+  Lemma idf_packed_upd i vs vs' (X : list tree) : idf (Packed i vs :: X) -> (forall x, In x X -> ~ In_id i x) ->
+    idf (Packed i vs' :: X).
+  Proof.
+    intros Hf Hno.
+    assert (Hcl: forall t1 u, In t1 (Packed i vs' :: X) -> subt u t1 -> u = Packed i vs' \/ exists x, In x X /\ subt u x).
+    { intros t1 u [<-|Hin] Hu; [cbn [subt] in Hu; tauto|right; exists t1; auto]. }
+    intros t1 t2 u v H1 H2 Hu Hv E.
+    destruct (Hcl t1 u H1 Hu) as [->|(x & Hx & Hux)]; destruct (Hcl t2 v H2 Hv) as [->|(y & Hy & Hvy)]; auto.
+    - exfalso. apply (Hno y Hy). cbn [idof] in E. rewrite E. apply subt_In_id. exact Hvy.
+    - exfalso. apply (Hno x Hx). cbn [idof] in E. rewrite <- E. apply subt_In_id. exact Hux.
+    - apply (Hf x y); auto; right; assumption.
+  Qed.
+
+  Definition trees (st : list ent) : list tree := map snd st.
+  (* the sources are well-formed and were allocated before s0 *)
+  Definition srcs_ok (s0 : state) (srcs : list tree) : Prop :=
+    idf srcs /\ forall u, In u srcs -> below (next s0) u.
+  (* the root identity of an Unarced entry occurs nowhere else in the stack *)
+  Fixpoint uroots (st : list ent) : Prop :=
+    match st with
+    | [] => True
+    | e :: st' =>
+        (fst e = false -> forall x, In x (trees st') -> ~ In_id (idof (snd e)) x) /\
+        (forall e', In e' st' -> fst e' = false -> ~ In_id (idof (snd e')) (snd e)) /\
+        uroots st'
+    end.
+
+  Definition stk_inv (s0 s : state) (srcs : list tree) (st : list ent) : Prop :=
+    (next s0 <= next s)%positive /\ Forall (ent_ok s0 s srcs) st /\
+    (srcs_ok s0 srcs -> idf (trees st ++ srcs) /\ uroots st).
+
+  Lemma stk_mono s0 s s' srcs st : stk_inv s0 s srcs st -> (next s <= next s')%positive -> stk_inv s0 s' srcs st.
+  Proof.
+    intros (Hn & Hall & Hid) Hle. split; [lia|]. split; [|exact Hid].
+    eapply Forall_impl; [|exact Hall]. intros e He. eapply ent_mono; eauto.
+  Qed.
+  Lemma stk_inv_nil s srcs : stk_inv s s srcs [].
+  Proof. split; [lia|]. split; [constructor|]. intros [Hi _]. split; [exact Hi|exact I]. Qed.
+
+  Lemma stk_below s0 s srcs st : (next s0 <= next s)%positive -> Forall (ent_ok s0 s srcs) st -> srcs_ok s0 srcs ->
+    forall x, In x (trees st ++ srcs) -> below (next s) x.
+  Proof.
+    intros Hn Hall [_ Hb] x Hx. apply in_app_or in Hx. destruct Hx as [Hx|Hx].
+    - unfold trees in Hx. apply in_map_iff in Hx. destruct Hx as (e & <- & He).
+      rewrite Forall_forall in Hall. eapply fof_below; eauto. apply (Hall e He).
+    - intros i Hi. pose proof (Hb x Hx i Hi). lia.
+  Qed.
+  Lemma Forall_bump s0 s srcs st : Forall (ent_ok s0 s srcs) st -> Forall (ent_ok s0 (bump s) srcs) st.
+  Proof. intros Hall. eapply Forall_impl; [|exact Hall]. intros e He. eapply ent_mono; eauto. cbn [bump next]. lia. Qed.
+
+  (* the four ways the stack changes *)
+  Lemma stk_push_atom s0 s srcs st (t : tree) : stk_inv s0 s srcs st -> atom t -> idof t = next s ->
+    stk_inv s0 (bump s) srcs ((false, t) :: st).
+  Proof.
+    intros (Hn & Hall & Hid) Ha Hi. split; [cbn [bump next]; lia|]. split.
+    - constructor; [apply ent_atom; auto|apply Forall_bump; exact Hall].
+    - intros Hok. destruct (Hid Hok) as [Hf Hur]. pose proof (stk_below _ _ _ _ Hn Hall Hok) as Hb.
+      split.
+      + cbn [trees map snd app]. apply (idf_fresh_root t (trees st ++ srcs)); auto.
+        * rewrite Hi. exact Hb.
+        * intros u Hu. left. destruct t; cbn [subt atom] in *; tauto.
+        * apply incl_refl.
+      + cbn [uroots fst snd]. split; [|split; [|exact Hur]].
+        * intros _ x Hx Hin. pose proof (Hb x (in_or_app _ _ _ (or_introl Hx)) _ Hin). lia.
+        * intros e' He' _ Hin.
+          assert (E: idof (snd e') = idof t) by (destruct t; cbn [In_id atom] in *; tauto).
+          pose proof (Hb (snd e') (in_or_app _ _ _ (or_introl (in_map snd _ _ He'))) _ (In_id_root _)). lia.
+  Qed.
+  Lemma stk_merge s0 s srcs f1 (r : tree) f2 (l : tree) st : stk_inv s0 s srcs ((f1, r) :: (f2, l) :: st) ->
+    stk_inv s0 (bump s) srcs ((false, Node (next s) l r) :: st).
+  Proof.
+    intros (Hn & Hall & Hid). split; [cbn [bump next]; lia|]. split.
+    - inversion Hall as [|e1 l1 He1 Hall1]; subst. inversion Hall1 as [|e2 l2 He2 Hall2]; subst.
+      constructor; [eapply ent_node; eauto|apply Forall_bump; exact Hall2].
+    - intros Hok. destruct (Hid Hok) as [Hf Hur]. pose proof (stk_below _ _ _ _ Hn Hall Hok) as Hb.
+      cbn [trees map snd app] in Hf, Hb. fold (trees st) in Hf, Hb.
+      split.
+      + cbn [trees map snd app]. fold (trees st).
+        apply (idf_fresh_root (Node (next s) l r) (r :: l :: trees st ++ srcs)); auto.
+        * intros u Hu. cbn [subt] in Hu. destruct Hu as [->|[Hu|Hu]]; [left; reflexivity| |];
+            right; [exists l|exists r]; cbn [In]; auto.
+        * intros x Hx. right. right. exact Hx.
+      + cbn [uroots fst snd] in Hur. destruct Hur as (_ & Ho1 & _ & Ho2 & Hur).
+        cbn [uroots fst snd]. split; [|split; [|exact Hur]].
+        * intros _ x Hx Hin. cbn [idof] in Hin.
+          pose proof (Hb x (or_intror (or_intror (in_or_app _ _ _ (or_introl Hx)))) _ Hin). lia.
+        * intros e' He' Hfl Hin. cbn [In_id idof] in Hin. destruct Hin as [E|[Hin|Hin]].
+          -- pose proof (Hb (snd e') (or_intror (or_intror (in_or_app _ _ _ (or_introl (in_map snd _ _ He'))))) _ (In_id_root _)). lia.
+          -- exact (Ho2 e' He' Hfl Hin).
+          -- exact (Ho1 e' (or_intror He') Hfl Hin).
+  Qed.
+  Lemma stk_packed_upd s0 s srcs i vs vs' st : stk_inv s0 s srcs ((false, Packed i vs) :: st) ->
+    stk_inv s0 s srcs ((false, Packed i vs') :: st).
+  Proof.
+    intros (Hn & Hall & Hid). split; [exact Hn|]. inversion Hall as [|e1 l1 He1 Hall1]; subst. split.
+    - constructor; [eapply ent_packed_upd; eauto|exact Hall1].
+    - intros Hok. destruct (Hid Hok) as [Hf Hur]. split.
+      + cbn [trees map snd app] in *. apply (idf_packed_upd i vs vs'); auto.
+        intros x Hx Hin. apply in_app_or in Hx. destruct Hx as [Hx|Hx].
+        * cbn [uroots fst snd idof] in Hur. exact (proj1 Hur eq_refl x Hx Hin).
+        * destruct He1 as [_ Hfr]. cbn [fst snd idof] in Hfr. destruct (Hfr eq_refl) as [Hlo _].
+          pose proof (proj2 Hok x Hx i Hin). lia.
+      + exact Hur.
+  Qed.
+  Lemma stk_push_src s0 s srcs st (t : tree) : stk_inv s0 s srcs st -> In t srcs -> stk_inv s0 s srcs ((true, t) :: st).
+  Proof.
+    intros (Hn & Hall & Hid) Hin. split; [exact Hn|]. split; [constructor; [apply ent_src; exact Hin|exact Hall]|].
+    intros Hok. destruct (Hid Hok) as [Hf Hur]. split.
+    - cbn [trees map snd app]. eapply idf_incl; [|exact Hf]. intros x [<-|Hx]; [apply in_or_app; right; exact Hin|exact Hx].
+    - cbn [uroots fst snd]. split; [discriminate|]. split; [|exact Hur].
+      intros e' He' Hfl Hid'. rewrite Forall_forall in Hall. destruct (Hall e' He') as [_ Hfr].
+      destruct (Hfr Hfl) as [Hlo _]. pose proof (proj2 Hok t Hin _ Hid'). lia.
+  Qed.
 
   (* ---------- shadows ---------- *)
   Record pbuilder := { pstack : list sent; pdepth : nat; plevel : N; plength : N; pcap : N }.
@@ -331,10 +476,7 @@ Section BuilderP.
         split; [reflexivity|]. split; [exact Ht|]. split; [exact Hst|].
         split; [apply ao_bump_l, Hao|]. split; [exact Hinv'|].
         revert Hcnt. wt_simp. lia.
-      + destruct Hinv as [Hn Hall]. inversion Hall as [|e1 l1 He1 Hall1]; subst. inversion Hall1 as [|e2 l2 He2 Hall2]; subst.
-        split; [cbn [bump next]; lia|]. constructor.
-        * eapply ent_node; eauto.
-        * eapply Forall_impl; [|exact Hall2]. intros e He. eapply ent_mono; eauto. cbn [bump next]. lia.
+      + eapply stk_merge; exact Hinv.
   Qed.
 
   Lemma merge_avail_sim R s0 srcs n : forall top st s,
@@ -354,10 +496,7 @@ Section BuilderP.
           split; [reflexivity|]. split; [exact Hsh|].
           split; [apply ao_bump_l, Hao|]. split; [exact Hinv'|].
           revert Hcnt. wt_simp. lia.
-        * destruct Hinv as [Hn Hall]. inversion Hall as [|e1 l1 He1 Hall1]; subst. inversion Hall1 as [|e2 l2 He2 Hall2]; subst.
-          split; [cbn [bump next]; lia|]. constructor.
-          -- eapply ent_node; eauto.
-          -- eapply Forall_impl; [|exact Hall2]. intros e He. eapply ent_mono; eauto. cbn [bump next]. lia.
+        * eapply stk_merge; exact Hinv.
   Qed.
 
   Lemma merge_up_sim R s0 srcs x er el n : forall i st s,
@@ -380,10 +519,7 @@ Section BuilderP.
           split; [reflexivity|]. split; [exact Hsh|].
           split; [apply ao_bump_l, Hao|]. split; [exact Hinv'|].
           revert Hcnt. wt_simp. lia.
-        * destruct Hinv as [Hn Hall]. inversion Hall as [|e1 l1 He1 Hall1]; subst. inversion Hall1 as [|e2 l2 He2 Hall2]; subst.
-          split; [cbn [bump next]; lia|]. constructor.
-          -- eapply ent_node; eauto.
-          -- eapply Forall_impl; [|exact Hall2]. intros e He. eapply ent_mono; eauto. cbn [bump next]. lia.
+        * eapply stk_merge; exact Hinv.
       + cbn [wp]. exists st. split; [reflexivity|]. split; [reflexivity|].
         split; [apply ao_refl|]. split; [exact Hinv|reflexivity].
   Qed.
@@ -427,22 +563,17 @@ Section BuilderP.
     destruct (is_packed ek).
     - destruct (blength b mod pf =? 0).
       + cbn [bind fresh wp obind]. apply push_tail_sim.
-        * destruct Hinv as [Hn Hall]. split; [cbn [bump next]; lia|]. constructor.
-          -- apply ent_atom; [exact I|reflexivity|exact Hn].
-          -- eapply Forall_impl; [|exact Hall]. intros e He. eapply ent_mono; eauto. cbn [bump next]. lia.
+        * apply stk_push_atom; [exact Hinv|exact I|reflexivity].
         * apply ao_bump.
         * wt_simp. lia.
       + destruct (bstack b) as [|[[|] [i0 v0|i0 vs|i0 l0 r0|i0 d0]] st] eqn:Est; cbn [map shp fst snd shape bind wp obind]; try reflexivity.
         destruct (lenN vs =? pf); cbn [bind wp obind]; [reflexivity|].
         apply push_tail_sim.
-        * destruct Hinv as [Hn Hall]. split; [exact Hn|]. inversion Hall as [|e1 l1 He1 Hall1]; subst. constructor; [|exact Hall1].
-          eapply ent_packed_upd; eauto.
+        * eapply stk_packed_upd; exact Hinv.
         * apply ao_refl.
         * wt_simp. lia.
     - cbn [bind fresh wp obind]. apply push_tail_sim.
-      + destruct Hinv as [Hn Hall]. split; [cbn [bump next]; lia|]. constructor.
-        * apply ent_atom; [exact I|reflexivity|exact Hn].
-        * eapply Forall_impl; [|exact Hall]. intros e He. eapply ent_mono; eauto. cbn [bump next]. lia.
+      + apply stk_push_atom; [exact Hinv|exact I|reflexivity].
       + apply ao_bump.
       + wt_simp. lia.
   Qed.
@@ -470,7 +601,7 @@ Section BuilderP.
       destruct (usize_max <? blength b + len); [reflexivity|]. cbn [wp].
       eexists. split; [reflexivity|]. split; [reflexivity|]. cbn [bstack].
       revert Hstep. wt_simp. auto.
-    - destruct Hinv as [Hn Hall]. split; [exact Hn|]. constructor; [apply ent_src; exact Hin|exact Hall].
+    - apply stk_push_src; assumption.
   Qed.
 
   Lemma finish_loop_sim R s0 srcs (b : builder T) lv fuel : forall next st s,
@@ -501,13 +632,8 @@ Section BuilderP.
         pose proof (step_trans _ _ _ _ _ _ _ _ Hstep1 Hstep2) as (A & I' & C).
         split; [apply ao_bump_l, ao_bump_l, A|]. split; [exact I'|].
         revert C. wt_simp. lia.
-      + destruct Hinv as [Hn Hall]. inversion Hall as [|e1 l1 He1 Hall1]; subst.
-        split; [cbn [bump next]; lia|]. constructor.
-        * eapply (ent_node s0 (bump s)).
-          -- eapply ent_mono; [exact He1|cbn [bump next]; lia].
-          -- apply (ent_atom s0 s srcs (Zero (next s) _)); [exact I|reflexivity|exact Hn].
-          -- cbn [bump next]; lia.
-        * eapply Forall_impl; [|exact Hall1]. intros e He. eapply ent_mono; eauto. cbn [bump next]. lia.
+      + apply (stk_merge s0 (bump s) srcs false (Zero (next s) _) f top st').
+        apply stk_push_atom; [exact Hinv|exact I|reflexivity].
   Qed.
 
 
@@ -557,8 +683,7 @@ Section BuilderP.
     - cbn [bind fresh wp]. exists false, (Zero (next s) (bdepth b)).
       cbn [shb pdepth]. split; [reflexivity|]. split; [reflexivity|].
       split; [apply ao_bump|]. split.
-      + destruct Hinv as [Hn _]. split; [cbn [bump next]; lia|]. constructor; [|constructor].
-        apply ent_atom; [exact I|reflexivity|exact Hn].
+      + apply stk_push_atom; [exact Hinv|exact I|reflexivity].
       + wt_simp. cbn [wt fold_right]. lia.
     - rewrite <- Est in *. unfold pfinish_ne. cbn [shb plength pcap pstack pdepth plevel].
       destruct (64 <=? blevel b); [reflexivity|].
@@ -1074,9 +1199,6 @@ Section BuilderP.
     rewrite Nat2N.id. reflexivity.
   Qed.
 
-  Lemma stk_inv_nil s srcs : stk_inv s s srcs [].
-  Proof. split; [lia|constructor]. Qed.
-
   (* push_all from the empty builder: the pure outcome *)
   Lemma ppush_all_new d lvl vs : lenN vs <= cap ek d ->
     exists pb, ppush_all (shb {| bstack := []; bdepth := d; blevel := lvl; blength := 0; bcap := cap ek d |}) vs = Ok pb /\
@@ -1089,10 +1211,14 @@ Section BuilderP.
     - exists pb. cbn [app shb pdepth pcap plevel bdepth bcap blevel] in *. repeat split; assumption.
   Qed.
 
-  Theorem build_canon_count : forall (d : nat) (vs : list T) R s, (d + pd <= 63)%nat -> lenN vs <= cap ek d ->
+  Lemma srcs_ok_nil s : srcs_ok s [].
+  Proof. split; [intros t1 t2 u v []|intros u []]. Qed.
+
+  (* everything at once: shape, allocation discipline, identities name nodes, exact allocation count *)
+  Theorem build_canon_full : forall (d : nat) (vs : list T) R s, (d + pd <= 63)%nat -> lenN vs <= cap ek d ->
     wp R (b <- builder_new ek (N.of_nat d) 0 ;; b' <- push_all ek b vs ;; builder_finish ek b')
        (fun o s' => exists t, o = Ok (t, d, lenN vs) /\ shape t = canon ek d vs /\
-                    alloc_only s s' /\ fresh_or_from s s' [] t /\
+                    alloc_only s s' /\ fresh_or_from s s' [] t /\ idf [t] /\
                     Npos (next s') = Npos (next s) + snodes (canon ek d vs)) s.
   Proof.
     intros d vs R s Hd Hl. rewrite builder_new_ok by exact Hd. cbn [bind].
@@ -1105,10 +1231,21 @@ Section BuilderP.
       - rewrite C. exact Hl. - rewrite C, D. reflexivity. - rewrite D. exact Hd. }
     intros o s2. rewrite Hfin.
     intros (f & t & -> & Hsh & Hstep2). exists t.
-    pose proof (step_trans _ _ _ _ _ _ _ _ Hstep1 Hstep2) as (A & (_ & I') & Cn).
+    pose proof (step_trans _ _ _ _ _ _ _ _ Hstep1 Hstep2) as (A & (_ & I' & Hid) & Cn).
     split; [reflexivity|]. split; [exact Hsh|]. split; [exact A|].
     inversion I' as [|e1 l1 He1 _]; subst. split; [apply He1|].
+    split; [exact (proj1 (Hid (srcs_ok_nil s)))|].
     revert Cn. cbn [shb pstack bstack map]. wt_simp. rewrite Hsh. cbn [wt fold_right]. lia.
+  Qed.
+
+  Theorem build_canon_count : forall (d : nat) (vs : list T) R s, (d + pd_of ek <= 63)%nat -> lenN vs <= cap ek d ->
+    wp R (b <- builder_new ek (N.of_nat d) 0 ;; b' <- push_all ek b vs ;; builder_finish ek b')
+       (fun o s' => exists t, o = Ok (t, d, lenN vs) /\ shape t = canon ek d vs /\
+                    alloc_only s s' /\ fresh_or_from s s' [] t /\
+                    Npos (next s') = Npos (next s) + snodes (canon ek d vs)) s.
+  Proof.
+    intros d vs R s Hd Hl. eapply wp_mono; [|apply build_canon_full; assumption].
+    intros o s' (t & Ho & Hsh & A & Ff & _ & Hc). exists t. auto.
   Qed.
 
   Theorem build_canon : forall (d : nat) (vs : list T) R s, (d + pd_of ek <= 63)%nat -> lenN vs <= cap ek d ->
@@ -1116,8 +1253,18 @@ Section BuilderP.
        (fun o s' => exists t, o = Ok (t, d, lenN vs) /\ shape t = canon ek d vs /\
                     alloc_only s s' /\ fresh_or_from s s' [] t) s.
   Proof.
-    intros d vs R s Hd Hl. eapply wp_mono; [|apply build_canon_count; assumption].
+    intros d vs R s Hd Hl. eapply wp_mono; [|apply build_canon_full; assumption].
     intros o s' (t & Ho & Hsh & A & Ff & _). exists t. auto.
+  Qed.
+
+  (* identities name nodes in the tree that was built *)
+  Theorem build_canon_idf : forall (d : nat) (vs : list T) R s, (d + pd_of ek <= 63)%nat -> lenN vs <= cap ek d ->
+    wp R (b <- builder_new ek (N.of_nat d) 0 ;; b' <- push_all ek b vs ;; builder_finish ek b')
+       (fun o s' => exists t, o = Ok (t, d, lenN vs) /\ shape t = canon ek d vs /\
+                    alloc_only s s' /\ fresh_or_from s s' [] t /\ idf [t]) s.
+  Proof.
+    intros d vs R s Hd Hl. eapply wp_mono; [|apply build_canon_full; assumption].
+    intros o s' (t & Ho & Hsh & A & Ff & Hi & _). exists t. auto.
   Qed.
 
   Theorem push_full : forall d vs v R s, (d + pd_of ek <= 63)%nat -> lenN vs = cap ek d ->
@@ -1387,13 +1534,16 @@ Section BuilderP.
       + rewrite C. exact Hl. + rewrite C, D. reflexivity. + rewrite D. exact Hd.
   Qed.
 
-  (* ---------- exported theorem: the builder half of pop_front ---------- *)
-  Theorem feed_canon : forall (d L : nat) items rest R s, (d + pd_of ek <= 63)%nat ->
+  (* ---------- exported theorems: the builder half of pop_front ---------- *)
+  (* master statement; the identity part is conditional on the sources being well-formed and old *)
+  Theorem feed_canon_full : forall (d L : nat) items rest R s, (d + pd_of ek <= 63)%nat ->
     ((pd_of ek <= L)%nat \/ (L = O /\ internal_nodes items = [])) -> (L <= d + pd_of ek)%nat ->
     items_blocks ek L items rest -> lenN rest <= cap ek d ->
     wp R (b <- builder_new ek (N.of_nat d) (N.of_nat L) ;; b' <- pop_front_feed ek items L b ;; builder_finish ek b')
        (fun o s' => exists t', o = Ok (t', d, lenN rest) /\ shape t' = canon ek d rest /\
-                    alloc_only s s' /\ fresh_or_from s s' (internal_nodes items) t') s.
+                    alloc_only s s' /\ fresh_or_from s s' (internal_nodes items) t' /\
+                    (idf (internal_nodes items) -> (forall u, In u (internal_nodes items) -> below (next s) u) ->
+                     idf (t' :: internal_nodes items))) s.
   Proof.
     intros d L items rest R s Hd Hcase HL IB Hl. rewrite builder_new_ok by exact Hd. cbn [bind].
     destruct (pfeed_finish d L items rest Hd Hcase HL IB Hl) as (pb & P & Hfin).
@@ -1402,11 +1552,22 @@ Section BuilderP.
     eapply wp_mono; [|apply (finish_sim R s (internal_nodes items)); apply Hstep1].
     intros o s2. rewrite Hfin.
     intros (f & t & -> & Hsh & Hstep2). exists t.
-    destruct Hstep1 as (A1 & _ & _). destruct Hstep2 as (A2 & (_ & I') & _).
+    destruct Hstep1 as (A1 & _ & _). destruct Hstep2 as (A2 & (_ & I' & Hid) & _).
     split; [reflexivity|]. split; [exact Hsh|]. split; [eapply ao_trans; eauto|].
-    inversion I' as [|e1 l1 He1 _]; subst. apply He1.
+    inversion I' as [|e1 l1 He1 _]; subst. split; [apply He1|].
+    intros Hi Hb. exact (proj1 (Hid (conj Hi Hb))).
   Qed.
 
+  Theorem feed_canon : forall (d L : nat) items rest R s, (d + pd_of ek <= 63)%nat ->
+    ((pd_of ek <= L)%nat \/ (L = O /\ internal_nodes items = [])) -> (L <= d + pd_of ek)%nat ->
+    items_blocks ek L items rest -> lenN rest <= cap ek d ->
+    wp R (b <- builder_new ek (N.of_nat d) (N.of_nat L) ;; b' <- pop_front_feed ek items L b ;; builder_finish ek b')
+       (fun o s' => exists t', o = Ok (t', d, lenN rest) /\ shape t' = canon ek d rest /\
+                    alloc_only s s' /\ fresh_or_from s s' (internal_nodes items) t') s.
+  Proof.
+    intros d L items rest R s Hd Hcase HL IB Hl. eapply wp_mono; [|apply feed_canon_full; eassumption].
+    intros o s' (t & Ho & Hsh & A & Ff & _). exists t. auto.
+  Qed.
 
   (* ---------- node count (cost model, C10) ---------- *)
   Lemma lenN_split n (l : list T) : lenN l = lenN (takeN n l) + lenN (dropN n l).
@@ -1461,6 +1622,28 @@ Section BuilderP.
     destruct (Nat.eq_dec pd O) as [E0|N0]; [left; lia|right; split; [exact HL0|apply Hint; [exact HL0|lia]]].
   Qed.
 
+  Lemma feed_case L (items : list (level_node T)) : (L = O \/ (pd_of ek <= L)%nat) -> (L = O -> (0 < pd_of ek)%nat -> internal_nodes items = []) ->
+    (pd_of ek <= L)%nat \/ (L = O /\ internal_nodes items = []).
+  Proof.
+    intros Hcase Hint. destruct Hcase as [HL0|Hpd]; [|left; exact Hpd].
+    destruct (Nat.eq_dec pd O) as [E0|N0]; [left; lia|right; split; [exact HL0|apply Hint; [exact HL0|lia]]].
+  Qed.
+
+  (* identities name nodes in the rebuilt tree together with the retained sources *)
+  Theorem feed_canon_idf : forall (d L : nat) items rest R s, (d + pd_of ek <= 63)%nat ->
+    (L = O \/ (pd_of ek <= L)%nat) -> (L = O -> (0 < pd_of ek)%nat -> internal_nodes items = []) ->
+    (L <= d + pd_of ek)%nat -> items_blocks ek L items rest -> lenN rest <= cap ek d ->
+    idf (internal_nodes items) -> (forall u, In u (internal_nodes items) -> below (next s) u) ->
+    wp R (b <- builder_new ek (N.of_nat d) (N.of_nat L) ;; b' <- pop_front_feed ek items L b ;; builder_finish ek b')
+       (fun o s' => exists t', o = Ok (t', d, lenN rest) /\ shape t' = canon ek d rest /\
+                    alloc_only s s' /\ fresh_or_from s s' (internal_nodes items) t' /\
+                    idf (t' :: internal_nodes items)) s.
+  Proof.
+    intros d L items rest R s Hd Hcase Hint HL IB Hl Hi Hb.
+    eapply wp_mono; [|apply feed_canon_full; try eassumption; apply feed_case; assumption].
+    intros o s' (t & Ho & Hsh & A & Ff & Hid). exists t. repeat (split; [assumption|]). apply Hid; assumption.
+  Qed.
+
 End BuilderP.
 
 (* The statement of feed_canon with the original side condition `L = O \/ pd <= L` alone is false:
@@ -1487,6 +1670,10 @@ Print Assumptions push_full.
 Print Assumptions new_invalid_depth.
 Print Assumptions feed_canon.
 Print Assumptions feed_canon'.
+Print Assumptions build_canon_idf.
+Print Assumptions feed_canon_idf.
+Print Assumptions build_canon_full.
+Print Assumptions feed_canon_full.
 Print Assumptions build_canon_count.
 Print Assumptions build_canon_nodes.
 Print Assumptions snodes_canon_le.
